@@ -56,14 +56,14 @@ SPEC = {
         {"name": "exh_gcc", "src": ["c14_exh.cpp"], "variant": "gnative", "chunk": 4, "tiers": ["thorough"],
          "configs": _exh_configs({}, {"line8": 0.1, "rect2x4": 0.2, "rect4x2": 0.2, "rect3x3": 0.05})},
         {"name": "random", "src": ["c14_random.cpp"], "variant": "asan", "chunk": 20,
-         "configs": {"rect_random": {"quick": 3000, "thorough": 150000}, "rect_thin": {"quick": 1500, "thorough": 60000},
-                     "rect_small_ties": {"quick": 300, "thorough": 15000}, "rect3x3_sample": {"quick": 300, "thorough": 3000},
-                     "rect_big": {"quick": 24, "thorough": 1200}, "line_random": {"quick": 5000, "thorough": 300000}}},
+         "configs": {"rect_random": {"quick": 3000, "thorough": 300000}, "rect_thin": {"quick": 1500, "thorough": 100000},
+                     "rect_small_ties": {"quick": 300, "thorough": 30000}, "rect3x3_sample": {"quick": 300, "thorough": 3000},
+                     "rect_big": {"quick": 24, "thorough": 3000}, "line_random": {"quick": 5000, "thorough": 600000}}},
         # same sources with the TBB code path of sort_edges (the shipped configuration defines GUDHI_USE_TBB)
         {"name": "random_tbb", "src": ["c14_random.cpp"], "variant": "asan", "defs": ["GUDHI_USE_TBB"], "libs": ["-ltbb"], "chunk": 20,
-         "configs": {"rect_random": {"quick": 600, "thorough": 30000}, "rect_big": {"quick": 24, "thorough": 1200}}},
+         "configs": {"rect_random": {"quick": 600, "thorough": 60000}, "rect_big": {"quick": 24, "thorough": 3000}}},
         {"name": "second", "src": ["c14_second.cpp"], "variant": "asan", "chunk": 20,
-         "configs": {"second_opinion": {"quick": 1500, "thorough": 60000}}},
+         "configs": {"second_opinion": {"quick": 1500, "thorough": 150000}}},
     ],
     "floors": {},
     "exhaustive": {"quick": False, "thorough": True},
@@ -108,11 +108,37 @@ _q["weak_orders.rect"] = _F[4] + 2 * _F[6] + 2 * _F[8] + _F[9] // 10
 _t["weak_orders.line"] = sum(_F[n] for n in range(1, 9))
 _t["weak_orders.rect"] = _F[4] + 2 * _F[6] + 2 * _F[8] + _F[9]
 # every comparison pattern of an interior cell with its 8 neighbours and of a border cell with its 5 neighbours was presented
+# (quick run measures >= 1282 per nbr8 pattern and >= 24818 per nbr5 pattern)
 for _p in range(256):
-    _q["nbr8.%02x" % _p] = 50
-    _t["nbr8.%02x" % _p] = 500
+    _q["nbr8.%02x" % _p] = 600
+    _t["nbr8.%02x" % _p] = 6000
 for _side in ("row0", "rowN", "col0", "colN"):
     for _p in range(32):
-        _q["nbr5.%s.%02x" % (_side, _p)] = 50
-        _t["nbr5.%s.%02x" % (_side, _p)] = 500
+        _q["nbr5.%s.%02x" % (_side, _p)] = 12000
+        _t["nbr5.%s.%02x" % (_side, _p)] = 60000
+# the complete enumerations of the shapes with a side of exactly 2
+_q["weak_orders.rect.side_of_2"] = _F[4] + 2 * _F[6] + 2 * _F[8]
+_t["weak_orders.rect.side_of_2"] = _F[4] + 2 * _F[6] + 2 * _F[8]
+# roughly half of what a normal quick run (seed 1) measures
+_q.update({
+    "call.rect.values": 1300000, "call.rect.indices": 1300000, "call.line.less": 40000, "call.line.greater_negated": 40000,
+    "call.line.value_index_pair": 40000, "call.line.less_T": 500, "cmp.line.default_comparator_same_calls": 500,
+    "inputs.rect": 38000, "inputs.rect.side_of_2": 1400, "inputs.rect.with_dim1_interval": 4700,
+    "inputs.line": 2500, "inputs.line.with_plateau": 1900, "inputs.line.len_ge_100": 300, "inputs.line.empty": 60,
+    "weak_orders.with_ties": 1200000, "weak_orders.with_finite_interval": 800000, "weak_orders.with_dim1_interval": 120000,
+    "expected.finite_dim0_intervals": 55000, "expected.finite_dim1_intervals": 9000, "emitted.zero_length_pairs": 250000,
+    "cmp.second.generic_route_vs_model": 750, "inputs.second.rect": 500, "inputs.second.line": 180,
+    "types.double_unsigned": 7000, "types.double_size_t": 7000, "types.float_int": 7000, "types.int_unsigned": 7000, "types.double_long": 7000,
+    "range.vector_double": 700, "range.vector_float": 300, "range.list_double": 300, "range.deque_float": 300, "range.vector_value_index": 700,
+    "cases.rect.big": 24, "cases.rect.thin": 750, "cases.rect.small_ties": 150, "cases.rect.r3x3": 150,
+    "_distinct_nontrivial": 50000,
+})
+_t.update({
+    "call.rect.values": 8000000, "call.rect.indices": 8000000, "call.line.less": 500000, "call.line.greater_negated": 500000,
+    "call.line.value_index_pair": 500000, "inputs.rect": 500000, "inputs.rect.side_of_2": 50000, "inputs.line": 150000,
+    "inputs.line.with_plateau": 100000, "inputs.line.len_ge_100": 15000, "inputs.line.empty": 3000,
+    "weak_orders.with_dim1_interval": 500000, "expected.finite_dim1_intervals": 300000, "emitted.zero_length_pairs": 2000000,
+    "cmp.second.generic_route_vs_model": 30000, "cases.rect.big": 1200,
+    "_distinct_nontrivial": 300000,
+})
 SPEC["floors"] = {"quick": _q, "thorough": _t}
